@@ -15,10 +15,12 @@ import (
 	"fmt"
 	"os"
 	"path/filepath"
+	"runtime/debug"
 	"sort"
 	"strings"
 	"sync"
 	"testing"
+	"testing/synctest"
 	"time"
 
 	"pgregory.net/rapid"
@@ -456,4 +458,32 @@ func Enumerate[P any](t *testing.T, u Unit[P], plans []P) {
 		path := writeReplay(u.ID, u.Name, pj, res, "fail")
 		t.Fatalf("VERIF-VIOLATION property=%s unit=%s replay=%s sig=%q :: %s", u.ID, u.Name, path, res.Sig, res.Violation)
 	}
+}
+
+// Bubble runs f inside a testing/synctest bubble and converts a bubble panic
+// on the calling goroutine (deadlock = goroutines left durably blocked after f
+// returned, or a panic inside f itself) into a string. It returns "" when the
+// bubble drained cleanly. f must not call t.Fatal/t.Error (carry verdicts out
+// as values) so that rapid can shrink the failing plan.
+func Bubble(t *testing.T, f func(t *testing.T)) (panicMsg string) {
+	inner := ""
+	defer func() {
+		if r := recover(); r != nil {
+			// e.g. "deadlock: main bubble goroutine has exited but blocked goroutines remain"
+			panicMsg = "bubble: " + fmt.Sprint(r)
+		}
+		if inner != "" {
+			panicMsg = inner
+		}
+	}()
+	synctest.Test(t, func(t *testing.T) {
+		// f runs on its own goroutine: a panic there would kill the process.
+		defer func() {
+			if r := recover(); r != nil {
+				inner = fmt.Sprintf("panic in bubble main goroutine: %v\n%s", r, debug.Stack())
+			}
+		}()
+		f(t)
+	})
+	return ""
 }
